@@ -351,17 +351,46 @@ def exact_state_equal(p, la, lb):
     return bad
 
 
-def r_ident_merge(ctx, db, est, mk_empty=None, assume=None, nonnan_fields=True, label=""):
-    """merge with a freshly constructed empty estimator on either side is an exact identity"""
+def noarg_accessors(db, est):
+    """public &self accessors without further arguments (the reported statistics)"""
+    out = {}
+    for name, p in est.accessors().items():
+        f = db.fns[p]
+        if f["arg_count"] == 1 and name not in ("clone", "iter", "ranges", "bins"):
+            out[name] = p
+    tr = est.m("estimate", ESTIMATE)
+    if tr:
+        out["estimate"] = tr
+    return out
+
+
+def observe(m, db, est, cell):
+    """{accessor: value} on the given state (runs inside the current path)"""
+    res = {}
+    for name, p in sorted(noarg_accessors(db, est).items()):
+        try:
+            v = call(m, p, [VRef(cell, (), False)])
+            if is_cond(v) and not isinstance(v, bool):
+                v = m.truth(v, None)
+            res[name] = v
+        except PathEnd as e:
+            if e.status == "panic":
+                res[name] = ("panic", e.info.get("kind"))
+            else:
+                raise
+    return res
+
+
+def r_ident_merge(ctx, db, est, mk_empty=None, assume=None, label=""):
+    """merge with a freshly constructed empty estimator on either side is an exact identity:
+    the state is an exact copy, or — where a private leaf differs — every reported statistic is
+    bit-for-bit the same (C11 speaks about reported statistics)."""
     mp = est.merge
     if not mp:
         return
     fsite = fn_site(db, mp)
     for side in ("other-empty", "self-empty"):
         for nmin in (1, 0):
-            if nmin == 0 and side == "self-empty":
-                pass
-
             def setup(m, side=side, nmin=nmin):
                 alg = Alg(m, est)
                 if nmin == 0:
@@ -371,39 +400,565 @@ def r_ident_merge(ctx, db, est, mk_empty=None, assume=None, nonnan_fields=True, 
                     if assume:
                         assume(m, full)
                 empty = mk_empty(alg, full) if mk_empty else alg.new("empty")
-                snap_full = leaf_map(deep(full.v))
+                ref = Cell(deep(full.v), root="ref")
 
                 def thunk():
                     if side == "other-empty":
                         alg.merge(full, empty)
-                        return leaf_map(full.v), snap_full
-                    alg.merge(empty, full)
-                    return leaf_map(empty.v), snap_full
+                        res = full
+                    else:
+                        alg.merge(empty, full)
+                        res = empty
+                    return {"got": leaf_map(res.v), "want": leaf_map(ref.v),
+                            "obs_got": observe(m, db, est, res), "obs_want": observe(m, db, est, ref)}
                 return thunk, {"a": (full, deep(full.v)), "empty": (empty, deep(empty.v))}
-            paths, stats = explore(db, setup, Config(release=True), 500)
+            paths, stats = explore(db, setup, Config(release=True), 2000)
             run = Run(mp, paths, stats, side)
             ctx.count_run(run)
             key = "merge-identity:%s:%s" % (side, "a-nonempty" if nmin else "a-empty")
             nret = 0
             for p in paths:
+                pcs = pc_show(p.pc) or "unconditional"
                 if p.status == "return":
                     nret += 1
-                    got, want = p.ret
+                    got, want = p.ret["got"], p.ret["want"]
                     bad = exact_state_equal(p, got, want)
-                    ctx.ob("R-IDENT", key, mp, fsite, not bad,
-                           ("state after merge is not an exact copy: %s [path: %s]" % (bad[:3], pc_show(p.pc) or "unconditional")) if bad
-                           else "all %d state leaves are exactly the entry values [path: %s]" % (len(want), pc_show(p.pc) or "unconditional"),
-                           sample={"leaves": sorted(want)[:8]})
-                    if side == "self-empty" or True:
-                        ch = changed_leaves(p, "a" if side == "self-empty" else "empty")
-                        ctx.ob("R-FRAME", "merge:argument-untouched:" + side, mp, fsite, not ch,
-                               "merge modified its argument: %s" % sorted(ch) if ch else "argument unchanged", nontrivial=False)
+                    if bad:
+                        obad = exact_state_equal(p, flat_obs(p.ret["obs_got"]), flat_obs(p.ret["obs_want"]))
+                        if not obad:
+                            ctx.ob("R-IDENT", key, mp, fsite, True,
+                                   "private leaves %s differ but all %d reported statistics are bit-for-bit equal [path: %s]" % (
+                                       [b[0] for b in bad][:3], len(p.ret["obs_want"]), pcs))
+                        else:
+                            ctx.ob("R-IDENT", key, mp, fsite, False,
+                                   "merge with an empty estimator changes reported statistics %s (state leaves %s) [path: %s]" % (obad[:3], bad[:2], pcs),
+                                   sample={"statistics": obad[:3], "leaves": bad[:3]})
+                    else:
+                        ctx.ob("R-IDENT", key, mp, fsite, True,
+                               "all %d state leaves are exactly the entry values [path: %s]" % (len(want), pcs),
+                               sample={"leaves": sorted(want)[:8]})
+                    ch = changed_leaves(p, "a" if side == "self-empty" else "empty")
+                    ctx.ob("R-FRAME", "merge:argument-untouched:" + side, mp, fsite, not ch,
+                           "merge modified its argument: %s" % sorted(ch) if ch else "argument unchanged", nontrivial=False)
                 elif p.status == "panic":
                     if is_debug_only(p.info.get("span") or {}):
                         continue
                     ctx.ob("R-IDENT", key, mp, fsite, False, "merge with an empty estimator panics (%s at %s) [path: %s]" % (
-                        p.info.get("kind"), site(p.info.get("span")), pc_show(p.pc)))
+                        p.info.get("kind"), site(p.info.get("span")), pcs))
                 else:
                     ctx.ob("R-IDENT", key, mp, fsite, False, str(p.info.get("why")), inc=True)
             if nret == 0:
                 ctx.ob("R-IDENT", key, mp, fsite, False, "no returning path", inc=True)
+
+
+def flat_obs(d):
+    out = {}
+    for k, v in d.items():
+        if isinstance(v, tuple) and v and v[0] == "panic":
+            out[k] = ("bopq", "panic:%s" % (v[1],))
+        elif isinstance(v, (VStruct, VTuple, VArray)):
+            for kk, vv in leaves(v, k):
+                out[kk] = vv
+        else:
+            out[k] = v
+    return out
+
+
+def nonnan_state(m, cell):
+    """reachable states of Min/Max never hold NaN (f64::min/max return the non-NaN operand)"""
+    for k, v in leaves(cell.v):
+        if is_float(v) and not F.is_lit(v):
+            m.order.set_nan(v, False)
+
+
+# ---------------------------------------------------------------------------------------------
+# R-SENTINEL / R-CONST / R-PANIC
+
+
+def classify(v):
+    """class of an accessor result for the sentinel table"""
+    if is_float(v):
+        if F.is_lit(v):
+            x = F.litval(v)
+            if x != x:
+                return "nan"
+            if x == 0:
+                return "0"
+            if x == 1:
+                return "1"
+            if x == float("inf"):
+                return "+inf"
+            if x == float("-inf"):
+                return "-inf"
+            return "lit:%r" % x
+        if v[0] == "atom":
+            return "atom:" + v[1]
+        if v[0] == "i2f":
+            return "count"
+        return "computed"
+    if is_int(v):
+        return "int"
+    return "other"
+
+
+def set_domain_facts(m, vals, nonneg=(), positive=()):
+    """property-domain facts on parameter atoms: finite, not NaN (and optionally >= 0 / > 0)"""
+    for v in vals:
+        if is_float(v) and not F.is_lit(v):
+            m.order.set_nan(v, False)
+    for v in nonneg:
+        m.order.assume("Ge", v, F.ZERO, True)
+    for v in positive:
+        m.order.assume("Gt", v, F.ZERO, True)
+
+
+def eval_accessor_in_state(ctx, db, est, acc_path, mk_state, args=(), rule="R-SENTINEL", key="", expect=None, what=""):
+    """evaluate accessor on the state built by mk_state(alg) -> cell; every path must return a
+    value whose class is in `expect` (set of classes or callables); panics are violations"""
+    fsite = fn_site(db, acc_path)
+
+    def setup(m):
+        alg = Alg(m, est)
+        cell = mk_state(alg)
+
+        def thunk():
+            return call(m, acc_path, [VRef(cell, (), False)] + list(args))
+        return thunk, {"self": (cell, deep(cell.v))}
+    paths, stats = explore(db, setup, Config(release=True), 400)
+    ctx.count_run(Run(acc_path, paths, stats, key))
+    nret = 0
+    for p in paths:
+        pcs = pc_show(p.pc) or "unconditional"
+        if p.status == "return":
+            nret += 1
+            cls = classify(p.ret)
+            ok = expect is None or any((e(p, p.ret) if callable(e) else e == cls) for e in expect)
+            want = "/".join(getattr(e, "__name__", str(e)) for e in (expect or []))
+            ctx.ob(rule, key, acc_path, fsite, ok,
+                   "%s returns %s (%s), contract: %s [path: %s]" % (what, show_val(p.ret)[:120], cls, want or "no claim", pcs),
+                   sample={"state": what, "value": show_val(p.ret)[:200], "class": cls}, nontrivial=expect is not None)
+        elif p.status == "panic":
+            if is_debug_only(p.info.get("span") or {}):
+                continue
+            ctx.ob("R-PANIC", key, acc_path, fsite, False,
+                   "%s: reachable panic (%s at %s) [path: %s]" % (what, p.info.get("kind"), site(p.info.get("span")), pcs),
+                   sample={"state": what, "panic": p.info.get("kind"), "at": site(p.info.get("span"))})
+        else:
+            ctx.ob(rule, key, acc_path, fsite, False, "%s: %s" % (what, p.info.get("why")), inc=True)
+    if nret == 0 and not any(p.status == "panic" for p in paths):
+        ctx.ob(rule, key, acc_path, fsite, False, "%s: no returning path" % what, inc=True)
+    return paths
+
+
+def is_atom(name):
+    def f(p, v):
+        return is_float(v) and v == F.atom(name)
+    f.__name__ = "exactly " + name
+    return f
+
+
+def const_state_builder(est, leafmap_x, nsym=True):
+    """state of a constant stream of length n >= 1: the state after one add(x) with the count
+    generalised to a symbol (the induction hypothesis of R-CONST)"""
+    pass
+
+
+def r_const_induction(ctx, db, est, leaf, weighted=False):
+    """constant streams: from (count = n >= 1, state as after one add of x) one more add(x) keeps
+    every observation-dependent float leaf exactly and increments the count: by induction every
+    add-only stream of identical observations has the one-observation state (with count n).
+    Leaves that depend on weights only (weight sums) may change."""
+    addp = est.add
+    fsite = fn_site(db, addp)
+
+    def setup(m):
+        alg = Alg(m, est)
+        xs = add_atoms(m, est, "c")
+        obs = xs[:1] if weighted else xs
+        wts = xs[1:] if weighted else []
+        set_domain_facts(m, xs, positive=wts)
+        s1 = alg.new("s")
+        alg.add(s1, *xs)
+        gen = generalise_counts(m, s1, leaf, {w[1] for w in wts})
+        before = leaf_map(deep(gen.v))
+        obs_names = {o[1] for o in obs}
+
+        def thunk():
+            alg.add(gen, *xs)
+            return before, leaf_map(gen.v), obs_names
+        return thunk, {}
+    paths, stats = explore(db, setup, Config(release=True), 200)
+    ctx.count_run(Run(addp, paths, stats, "R-CONST"))
+    for p in paths:
+        pcs = pc_show(p.pc) or "unconditional"
+        if p.status == "return":
+            before, after, obs_names = p.ret
+            bad = []
+            for k in before:
+                a, b = before[k], after.get(k)
+                if is_int(a):
+                    if not (p.machine.ienv.cmp("Eq", simp(b), simp(Lin.lift(a) + 1)) is True):
+                        bad.append((k, show_val(a), show_val(b)))
+                elif is_float(a):
+                    if a != b and (F.atoms(a) & obs_names or F.atoms(b) & obs_names or F.has_opaque(b)):
+                        bad.append((k, show_val(a)[:100], show_val(b)[:100]))
+            ctx.ob("R-CONST", "induction-step", addp, fsite, not bad,
+                   ("adding the stream's constant again changes the state: %s [path: %s]" % (bad[:3], pcs)) if bad else
+                   "constant-stream state is a fixed point of add(x) up to the count (%d leaves) [path: %s]" % (len(before), pcs),
+                   sample={"leaves": sorted(before)[:8]})
+        elif p.status == "panic":
+            if is_debug_only(p.info.get("span") or {}):
+                continue
+            ctx.ob("R-PANIC", "induction-step", addp, fsite, False, "add panics on a constant stream (%s) [path: %s]" % (p.info.get("kind"), pcs))
+        else:
+            ctx.ob("R-CONST", "induction-step", addp, fsite, False, str(p.info.get("why")), inc=True)
+
+
+def generalise_counts(m, cell, leaf, weight_names=()):
+    """copy of a concrete one-observation state with the count leaf replaced by a symbol n >= 1
+    and every float leaf that depends on weights only replaced by a fresh positive atom"""
+    c = Cell(deep(cell.v), root="g")
+
+    def repl(path, x):
+        if is_int(x) and (leaf is None or path == leaf):
+            m.ienv.declare("n", 1, SYM_HI)
+            return Lin.sym("n")
+        if is_float(x) and not F.is_lit(x) and weight_names:
+            at = F.atoms(x)
+            if at and at <= set(weight_names):
+                a = F.atom("W:" + path)
+                m.order.set_nan(a, False)
+                m.order.assume("Gt", a, F.ZERO, True)
+                return a
+        return None
+
+    def walk(v, prefix):
+        if isinstance(v, (VStruct, VTuple)):
+            for i, x in enumerate(v.fields):
+                nm = v.names[i] if isinstance(v, VStruct) and v.names and i < len(v.names) else str(i)
+                path = "%s.%s" % (prefix, nm) if prefix else nm
+                r = repl(path, x)
+                if r is not None:
+                    v.fields[i] = r
+                else:
+                    walk(x, path)
+        elif isinstance(v, VArray):
+            for i, x in enumerate(v.elems):
+                path = "%s[%d]" % (prefix, i)
+                r = repl(path, x)
+                if r is not None:
+                    v.elems[i] = r
+                else:
+                    walk(x, path)
+    walk(c.v, "")
+    return c
+
+
+# ---- sentinel table (DESIGN Appendix B.1, transcribed from C16 and C10)
+
+NANC, ZERO, ONE = "nan", "0", "1"
+
+
+def sentinel_table(est_kind, N=None):
+    """accessor -> {state: expected classes}; states: n0, n1, const (n>=1 constant stream),
+    n2, n3 (generic states with that count).  'X' = exactly the observation, 'COUNT' = the count."""
+    X = "X"
+    mean_row = {"n0": {NANC}, "n1": {X}, "const": {X}}
+    var_row = {"n0": {NANC}, "n1": {ZERO}, "const": {ZERO}}
+    svar_row = {"n0": {NANC}, "n1": {NANC}}
+    t = {}
+    if est_kind == "Mean":
+        t["mean"] = mean_row
+    elif est_kind == "Variance":
+        t.update({"mean": mean_row, "population_variance": var_row, "sample_variance": svar_row,
+                  "variance_of_mean": var_row, "error": var_row})
+    elif est_kind == "Skewness":
+        t.update({"mean": mean_row, "population_variance": var_row, "sample_variance": svar_row,
+                  "error_mean": var_row, "skewness": var_row})
+    elif est_kind == "Kurtosis":
+        t.update({"mean": mean_row, "population_variance": var_row, "sample_variance": svar_row,
+                  "error_mean": var_row, "skewness": var_row, "kurtosis": var_row})
+    elif est_kind == "Moments":
+        t["mean"] = mean_row
+        t["sample_variance"] = svar_row
+        t["sample_skewness"] = {"n0": {NANC}, "n1": {ZERO}}
+        t["sample_excess_kurtosis"] = {"n0": {NANC}, "n1": {NANC}, "n2": {NANC}, "n3": {NANC}}
+        for p in range(0, (N or 4) + 1):
+            if p == 0:
+                row = {"n0": {ONE}, "n1": {ONE}, "const": {ONE}, "n2": {ONE}}
+                srow = {"n0": {ZERO}, "n1": {ONE}, "const": {"count"}, "n2": {"lit:2.0"}}
+            elif p == 1:
+                row = {"n0": {ZERO}, "n1": {ZERO}, "const": {ZERO}, "n2": {ZERO}}
+                srow = dict(row)
+            else:
+                row = dict(var_row)
+                srow = {"n0": {ONE}, "n1": {ONE}, "const": {ONE}} if p == 2 else None
+            t[("central_moment", p)] = row
+            if srow is not None:
+                t[("standardized_moment", p)] = srow
+    elif est_kind == "WeightedMean":
+        t["mean"] = {"n0": {NANC}, "n1": {X}, "n1w0": {NANC}, "const": {X}}
+        t["sum_weights"] = {"n0": {ZERO}, "n1": {"W"}}
+    elif est_kind == "WeightedMeanWithError":
+        t["weighted_mean"] = {"n0": {NANC}, "n1": {X}, "n1w0": {NANC}, "const": {X}}
+        t["unweighted_mean"] = mean_row
+        t["sum_weights"] = {"n0": {ZERO}, "n1": {"W"}}
+        t["sum_weights_sq"] = {"n0": {ZERO}, "n1": {"WW"}}
+        t["effective_len"] = {"n0": {ZERO}}
+        t["population_variance"] = var_row
+        t["sample_variance"] = svar_row
+        t["variance_of_weighted_mean"] = {"n0": {NANC}, "n1": {NANC}, "n1w0": {NANC}}
+        t["error"] = {"n0": {NANC}, "n1": {NANC}, "n1w0": {NANC}}
+    elif est_kind == "Covariance":
+        t["mean_x"] = mean_row
+        t["mean_y"] = {"n0": {NANC}, "n1": {"Y"}, "const": {"Y"}}
+        for a in ("population_variance_x", "population_variance_y", "population_covariance"):
+            t[a] = var_row
+        for a in ("sample_variance_x", "sample_variance_y", "sample_covariance", "pearson"):
+            t[a] = svar_row
+    elif est_kind == "Min":
+        t["min"] = {"n0": {"+inf"}, "n1": {X}, "const": {X}}
+    elif est_kind == "Max":
+        t["max"] = {"n0": {"-inf"}, "n1": {X}, "const": {X}}
+    elif est_kind == "Quantile":
+        t["quantile"] = {"n0": {NANC}, "n1": {X}}
+    return t
+
+
+def r_sentinel(ctx, db, est, kind, N=None, weighted=False, ctor_args=None, states=("n0", "n1", "const", "n2", "n3"),
+               only=None):
+    table = sentinel_table(kind, N)
+    leaf = count_leaf(ctx, db, est)
+    n_cells = 0
+    for acc, row in table.items():
+        if only and (acc if isinstance(acc, str) else acc[0]) not in only:
+            continue
+        name, args = (acc, ()) if isinstance(acc, str) else (acc[0], (acc[1],))
+        ap = est.m(name, None)
+        if ap is None:
+            # accessor absent in this configuration (feature-gated): not a violation of C16
+            ctx.notes.append("accessor %s::%s not present in this cfg" % (est.path, name))
+            continue
+        for st, expect in row.items():
+            if st not in states:
+                continue
+            n_cells += 1
+
+            def mk_state(alg, st=st):
+                m = alg.m
+                ctor = list(ctor_args(m)) if ctor_args else []
+                if st == "n0":
+                    return alg.new("s", *ctor)
+                if st in ("n1", "n1w0", "const"):
+                    xs = add_atoms(m, est, "o")
+                    if weighted:
+                        if st == "n1w0":
+                            xs = [xs[0], F.ZERO]
+                            set_domain_facts(m, xs[:1])
+                        else:
+                            set_domain_facts(m, xs, positive=xs[1:])
+                    else:
+                        set_domain_facts(m, xs)
+                    s = alg.new("s", *ctor)
+                    alg.add(s, *xs)
+                    if st == "const":
+                        s = generalise_counts(m, s, leaf, {w[1] for w in xs[1:]} if weighted else ())
+                    return s
+                k = int(st[1:])
+                if leaf is None:
+                    raise Unsupported("no count leaf")
+                return Cell(m.sym_value(est.ty(), "s", None, {"s." + leaf: k}), root="s")
+            exp = set()
+            for e in expect:
+                if e == "X":
+                    exp.add(is_atom("o_" + first_param(db, est, 0)))
+                elif e == "Y":
+                    exp.add(is_atom("o_" + first_param(db, est, 1)))
+                elif e == "W":
+                    exp.add(is_atom("o_" + first_param(db, est, 1)))
+                elif e == "WW":
+                    wn = "o_" + first_param(db, est, 1)
+
+                    def ww(p, v, wn=wn):
+                        return v == F.mk("mul", F.atom(wn), F.atom(wn))
+                    ww.__name__ = "w*w"
+                    exp.add(ww)
+                else:
+                    exp.add(e)
+            key = "%s%s@%s" % (name, "(%s)" % args[0] if args else "", st)
+            eval_accessor_in_state(ctx, db, est, ap, mk_state, args, "R-SENTINEL", key, exp,
+                                   what="%s::%s%s in state %s" % (est.name, name, "(%s)" % args[0] if args else "()", st))
+    return n_cells
+
+
+def first_param(db, est, i):
+    f = db.fns[est.add]
+    names = param_names(f)
+    return names.get(2 + i, "arg%d" % (2 + i))
+
+
+# ---------------------------------------------------------------------------------------------
+# Default::default() == new()
+
+DEFAULT = "core::default::Default"
+
+
+def r_default_is_new(ctx, db, est, new_args=None):
+    dp = est.m("default", DEFAULT)
+    if dp is None or est.new is None:
+        return 0
+    fsite = fn_site(db, dp)
+
+    def setup(m):
+        def thunk():
+            d = call(m, dp, [])
+            n = call(m, est.new, list(new_args(m)) if new_args else [])
+            return leaf_map(d), leaf_map(n)
+        return thunk, {}
+    paths, stats = explore(db, setup, Config(release=True), 50)
+    ctx.count_run(Run(dp, paths, stats, "default"))
+    for p in paths:
+        if p.status == "return":
+            a, b = p.ret
+            bad = exact_state_equal(p, a, b)
+            ctx.ob("R-FORWARD", "default=new", dp, fsite, not bad,
+                   ("Default::default() differs from new(): %s" % (bad[:3],)) if bad else "default() builds exactly the state of new() (%d leaves)" % len(b),
+                   sample={"leaves": sorted(b)[:6]})
+        elif p.status == "panic":
+            ctx.ob("R-FORWARD", "default=new", dp, fsite, False, "default() panics: %s" % p.info.get("kind"))
+        else:
+            ctx.ob("R-FORWARD", "default=new", dp, fsite, False, str(p.info.get("why")), inc=True)
+    return 1
+
+
+# ---------------------------------------------------------------------------------------------
+# histogram helpers
+
+def hist_sym(m, est, name, consts=None, sorted_edges=True, strict=False):
+    """abstract histogram: edges are non-NaN atoms in non-decreasing order (the from_ranges
+    invariant), bins are bounded counters"""
+    cell = Cell(m.sym_value(est.ty(), name, None, None, 0), root=name)
+    lm = leaf_map(cell.v)
+    edges = [v for k, v in sorted(lm.items(), key=lambda kv: leaf_index(kv[0])) if is_float(v)]
+    for e in edges:
+        m.order.set_nan(e, False)
+    if sorted_edges:
+        for a, b in zip(edges, edges[1:]):
+            m.order.assume("Lt" if strict else "Le", a, b, True)
+    return cell, edges
+
+
+def leaf_index(k):
+    import re
+    mm = re.search(r"\[(\d+)\]$", k)
+    return (k.split("[")[0], int(mm.group(1)) if mm else -1)
+
+
+def hist_empty_like(alg, full):
+    """a freshly constructed histogram over the same edges: same range values, all bins zero"""
+    v = deep(full.v)
+
+    def zero(v):
+        if isinstance(v, VStruct):
+            for i, x in enumerate(v.fields):
+                if isinstance(x, VArray) and x.elems and is_int(x.elems[0]):
+                    v.fields[i] = VArray([0 for _ in x.elems])
+                else:
+                    zero(x)
+    zero(v)
+    return Cell(v, root="empty")
+
+
+def r_hist_merge_identity(ctx, db, est, ln, consts=None):
+    mp = est.merge
+    fsite = fn_site(db, mp)
+    for which in ("merge", "add_assign"):
+        fnp = mp if which == "merge" else est.m("add_assign")
+        if fnp is None:
+            continue
+        for side in ("other-empty", "self-empty"):
+            def setup(m, side=side, fnp=fnp):
+                alg = Alg(m, est)
+                full, edges = hist_sym(m, est, "a")
+                empty = hist_empty_like(alg, full)
+                ref = Cell(deep(full.v), root="ref")
+
+                def thunk():
+                    if side == "other-empty":
+                        call(m, fnp, [VRef(full, (), True), VRef(empty, (), False)])
+                        res = full
+                    else:
+                        call(m, fnp, [VRef(empty, (), True), VRef(full, (), False)])
+                        res = empty
+                    return leaf_map(res.v), leaf_map(ref.v)
+                return thunk, {"a": (full, deep(full.v)), "empty": (empty, deep(empty.v))}
+            paths, stats = explore(db, setup, Config(release=True, consts=consts or {}), 500)
+            ctx.count_run(Run(fnp, paths, stats, side))
+            key = "hist-%s-identity:%s:LEN=%d" % (which, side, ln)
+            for p in paths:
+                pcs = pc_show(p.pc) or "unconditional"
+                if p.status == "return":
+                    got, want = p.ret
+                    bad = exact_state_equal(p, got, want)
+                    ctx.ob("R-IDENT", key, fnp, fn_site(db, fnp), not bad,
+                           ("merging an all-zero histogram over the same edges changes the state: %s [path: %s]" % (bad[:3], pcs)) if bad
+                           else "edges and all %d counts unchanged [path: %s]" % (ln, pcs))
+                    ch = changed_leaves(p, "a" if side == "self-empty" else "empty")
+                    ctx.ob("R-FRAME", "hist-%s:argument-untouched:%s:LEN=%d" % (which, side, ln), fnp, fn_site(db, fnp), not ch,
+                           "argument modified: %s" % sorted(ch)[:4] if ch else "argument unchanged", nontrivial=False)
+                elif p.status == "panic":
+                    if is_debug_only(p.info.get("span") or {}):
+                        continue
+                    ctx.ob("R-IDENT", key, fnp, fn_site(db, fnp), False,
+                           "merging histograms over identical edges panics (%s at %s) [path: %s]" % (p.info.get("kind"), site(p.info.get("span")), pcs))
+                else:
+                    ctx.ob("R-IDENT", key, fnp, fn_site(db, fnp), False, str(p.info.get("why")), inc=True)
+
+
+CLONE = "core::clone::Clone"
+
+
+def r_derived_clone(ctx, db, est):
+    """the clone used by merge's empty-self path is the derived, field-wise one (exact copy)"""
+    cp = est.m("clone", CLONE)
+    if cp is None:
+        ctx.ob("R-IDENT", "clone-derived", est.path, "-", False, "no Clone impl found", inc=True)
+        return
+    f = db.fns[cp]
+    fsite = fn_site(db, cp)
+
+    def build(m):
+        c = sym_self(m, est, int_min=0)
+        return [self_ref(c, False)], {"self": c}
+    run = run_entry(db, cp, build, Config(release=True))
+    ctx.count_run(run)
+    for p in run.paths:
+        if p.status == "return":
+            a = init_leaves(p)
+            b = leaf_map(p.ret)
+            bad = exact_state_equal(p, b, a)
+            ctx.ob("R-IDENT", "clone-exact", cp, fsite, not bad and bool(f.get("impl_derived")),
+                   "clone() is %sderived and %s" % ("" if f.get("impl_derived") else "NOT ",
+                                                  "copies every leaf exactly" if not bad else "changes %s" % (bad[:3],)))
+        else:
+            ctx.ob("R-IDENT", "clone-exact", cp, fsite, False, "clone does not return: %s" % p.status, inc=p.status == "inconclusive")
+
+
+def r_no_interior_mutability(ctx, db):
+    """no state struct has a Cell/RefCell/Atomic/Mutex field, the crate forbids unsafe code and has
+    no statics: `&self`/`&Self` arguments cannot be modified and methods are functions of their
+    arguments"""
+    bad = []
+    for path, a in db.adts.items():
+        for v in a["variants"]:
+            for f in v["fields"]:
+                s = f["ty"]["s"]
+                if any(x in s for x in ("Cell<", "RefCell<", "Atomic", "Mutex<", "RwLock<", "UnsafeCell", "OnceCell", "OnceLock", "*mut", "*const")):
+                    bad.append("%s.%s: %s" % (path, f["name"], s))
+    ctx.ob("R-FRAME", "no-interior-mutability", "-", "-", not bad,
+           "interior mutability in state: %s" % bad if bad else "no field of any of the %d ADTs is interiorly mutable or a raw pointer" % len(db.adts))
+    lint = db.crates["average"]["unsafe_code_lint"]
+    ctx.ob("R-FRAME", "forbid-unsafe", "-", "-", lint in ("Forbid", "Deny"),
+           "crate-level lint level for unsafe_code is %s" % lint)
+    st = [s["path"] for s in db.statics if s.get("crate") == "average"]
+    ctx.ob("R-FRAME", "no-statics", "-", "-", not st, "statics: %s" % st if st else "the crate defines no static item")
